@@ -1,6 +1,7 @@
-(** C14: concrete witnesses.  F19 and F20 were repaired in /repo (commits fe13a06, 450bcaa) and the
-    model follows the repaired code: their former counterexamples are kept as regression examples.
-    F21 is not repaired: the faithful model still refutes the unguarded statement. *)
+(** C14: concrete witnesses.  F19, F20 and F21 were repaired in /repo (commits fe13a06, 450bcaa,
+    38f8bd3) and the model follows the repaired code: their former counterexamples are kept as
+    regression examples.  For F21 the behaviour before the repair is kept as explicitly named
+    [*_old] definitions, with the refutation stated about those. *)
 From Coq Require Import List Arith Bool PeanoNat ZArith QArith.
 Import ListNotations.
 Require Import Fggs.Model.Json.
@@ -27,9 +28,9 @@ Example f20_now_roundtrips : forall dec,
                h_labels (f_hrg g') = [f20_S; f20_t] /\ map fst (f_factors g') = [[116]].
 Proof. intro dec. eexists. eexists. split; [reflexivity|]. split; [vm_compute; reflexivity|]. split; reflexivity. Qed.
 
-(** F21 (found by this check, not repaired): a finite factor over (N, M) with N empty and |M| = 3.
-    Its weights (shape (0, 3)) are written as the empty list, which reads back with shape (0,):
-    [json_to_fgg] raises ValueError (wrong shape). *)
+(** formerly F21: a finite factor over (N, M) with N empty and |M| = 3.  Its weights (shape (0, 3))
+    are written as the empty list, which reads back with shape (0,).  Since 38f8bd3 [json_to_fgg]
+    restores the zeros of the right shape. *)
 Definition f21_t : elabel := mkEL [116] [[78]; [77]] true.
 Definition f21_n : node := mkNode [78] (Explicit [110]).
 Definition f21_m : node := mkNode [77] (Explicit [109]).
@@ -40,7 +41,49 @@ Definition f21_fgg : fgg :=
   mkFGG f21_hrg [([78], DFinite []); ([77], DRange 3)]
         [([116], FFinite (mkPT (TL []) 0 [0; 3] [APhys 0 0; APhys 1 3] (NFin 0)))].
 
-Lemma f21_refuted : forall dec,
+Example f21_now_roundtrips : forall dec,
+  exists j g', fgg_to_json_model dec f21_fgg = Ok j /\ json_to_fgg_model 0 j = Ok g' /\
+               map (fun kf => match snd kf with FFinite w => pt_shape w | FConstant _ => [] end) (f_factors g') = [[0; 3]].
+Proof. intro dec. eexists. eexists. split; [reflexivity|]. split; vm_compute; reflexivity. Qed.
+
+(** ** the code before 38f8bd3 *)
+Definition json_to_factor_old (tbl : list elabel) (doms : list (str * domain)) (name : str) (d : json) : res factor :=
+  do el <- match lab_get tbl name with Some l => Ok l | None => Err KeyErr end;
+  do ds <- mapM (fun nl => match dict_find doms nl with Some x => Ok x | None => Err KeyErr end) (el_type el);
+  do f <- jget d k_function;
+  if json_eqb f (JStr k_constant) then
+    do w <- jget d k_weight;
+    if negb (el_term el) then Err ValueErr else Ok (FConstant w)
+  else if json_eqb f (JStr k_finite) then
+    do jw <- jget d k_weights;
+    do w <- json_to_weights_model jw;
+    if negb (nats_eqb (pt_shape w) (map domain_size ds)) then Err ValueErr
+    else if negb (el_term el) then Err ValueErr else Ok (FFinite w)
+  else Err ValueErr.
+
+Fixpoint json_to_factors_old (tbl : list elabel) (doms : list (str * domain)) (items : list (str * json))
+         (acc : list (str * factor)) : res (list (str * factor)) :=
+  match items with
+  | [] => Ok acc
+  | (name, d) :: items' =>
+      do f <- json_to_factor_old tbl doms name d;
+      json_to_factors_old tbl doms items' (acc ++ [(name, f)])
+  end.
+
+Definition json_to_fgg_model_old (c : nat) (j : json) : res fgg :=
+  do jg <- jget j k_grammar;
+  do h <- json_to_hrg_model c jg;
+  do h' <- from_hrg h;
+  do ji <- jget j k_interpretation;
+  do jd <- jget ji k_domains;
+  do itd <- jitems jd;
+  do doms <- json_to_domains itd [];
+  do jf <- jget ji k_factors;
+  do itf <- jitems jf;
+  do facs <- json_to_factors_old (h_labels h') doms itf [];
+  Ok (mkFGG h' doms facs).
+
+Lemma f21_old_refuted : forall dec,
   wf_hrg f21_hrg = true /\
-  exists j, fgg_to_json_model dec f21_fgg = Ok j /\ json_to_fgg_model 0 j = Err ValueErr.
+  exists j, fgg_to_json_model dec f21_fgg = Ok j /\ json_to_fgg_model_old 0 j = Err ValueErr.
 Proof. intro dec. split; [reflexivity|]. eexists. split; [reflexivity|]. vm_compute. reflexivity. Qed.
